@@ -109,7 +109,14 @@ theorem plm_quiet (cfg : Config) (s : FState α) (cmd : Cmd α) (ep fr fz : Opti
         exact ⟨r1, r2⟩
     · exact ⟨rfl, hq2⟩
   · simp only [hm, Bool.not_false, if_true]
-    exact processNonMove_quiet _ cmd dE hs1 hq1
+    obtain ⟨r1, r2⟩ := processNonMove_quiet _ cmd dE hs1 hq1
+    unfold T.nonMoveBody
+    cases hl : (T.applyEZF s ep fr fz).lastRetraction with
+    | none => exact ⟨r1, r2⟩
+    | some lr =>
+      have := hq1.noOwed lr hl
+      simp only [this, Bool.and_false, Bool.false_and, Bool.false_eq_true, if_false]
+      exact ⟨r1, r2⟩
 
 /-- does an arc command test a sample that lies in an enabled region? (mirrors `_handle_G2`:
 `false` when the arc is not executed) -/
